@@ -423,6 +423,9 @@ def under(q, f):
     return q == f or q.startswith(f + '/')
 
 
+GUARD_DIRS = ('!.', '!g1', '!g1/g2', '!g1/g2/g3')
+
+
 class Bad(Exception):
     pass
 
@@ -485,7 +488,9 @@ def fs_text_judge(ops, obs):
                     T = pr.get('d', '-')
                     if T == '-' or T.startswith('?'):
                         raise Bad('open-target', 'open says true but the path denotes nothing afterwards')
-                    if T in tree:
+                    if T in GUARD_DIRS:
+                        pass                                # a guard level: a directory that the snapshot does not list
+                    elif T in tree:
                         # write-only without append / open flags truncates; every other mode leaves the bytes alone
                         if tok_of(T, tree[T]) not in post_toks and tree[T][0] == 'f' and wr and not (fl & 13):
                             exp[T] = ('f', b'')
@@ -494,7 +499,7 @@ def fs_text_judge(ops, obs):
                             raise Bad('open-creates', 'open without writeFlag, or with openFlag, says true for a file that did not exist')
                         exp[T] = ('f', b'')
                     if h not in H:
-                        v = exp[T]
+                        v = exp[T] if T in exp else ('d',)
                         H[h] = {'path': T, 'pos': (len(v[1]) if (fl & 4) and v[0] == 'f' else 0), 'rd': rd, 'wr': wr, 'dir': v[0] == 'd'}
                 elif res[0] != '0':
                     raise Bad('result', 'unexpected answer ' + res[0])
@@ -682,8 +687,8 @@ class C19(Check):
                   'simplifies to simplifyPath(to) whenever a lexical answer exists. B (files/directories): executable model of the '
                   'library logic (open flag mapping, size/readAll/write/seek, rename with source check and exclusive placeholder, '
                   'copy with same-file refusal, transfer loop and clean-up, recursive create, recursive unlink by entry type) over a '
-                  'Gallina file-system tree with files, directories and symbolic links; any history on a read-write handle refines a '
-                  'byte buffer with cursor; a copy / rename that says true leaves exactly the state "tree before with the source\'s '
+                  'Gallina file-system tree with files, directories and symbolic links; any history on a handle of any mode (read-only, '
+                  'write-only, read-write; every open-flag combination) refines a byte buffer with cursor; a copy / rename that says true leaves exactly the state "tree before with the source\'s '
                   'bytes at the resolved destination" / "with the source node moved there" (for every outcome of the kernel\'s '
                   'transfer calls: short, empty, failing - an outcome oracle); failed open/rename change nothing, a failed copy '
                   'changes nothing when transfers complete and otherwise at most the one destination file, which it removes again '
@@ -706,9 +711,9 @@ class C19(Check):
                   'what one read() gives, i.e. at most 0x7ffff000 bytes) and ftruncate/fstat/lseek/close not to fail. A transfer that '
                   'fails midway over a destination that existed before - or over a name that did not, reached through a symbolic link, '
                   'which the second open creates - leaves the bytes that arrived (a prefix of the source): an atomic replace would be a '
-                  'redesign (temporary file + rename). The file-handle theorem is for read-write handles; read-only/write-only handles, a '
-                  'second handle on the same file, File::unlink and createSymbolicLink are covered by the text judge and correspondence '
-                  'only. The unlink theorem and create_succeeds are stated for relative texts of proper names through real directories '
+                  'redesign (temporary file + rename). The file-handle theorem covers one handle of any mode on an existing or fresh regular '
+                  'file; a second handle on the same file, File::unlink and createSymbolicLink are covered by the text judge and '
+                  'correspondence only. The unlink theorem and create_succeeds are stated for relative texts of proper names through real directories '
                   '(create_succeeds: names without backslash); unlink/create through \'.\', \'..\' or symbolic links by judge and '
                   'correspondence only. create false => not-exists needs a path text without backslash (the code splits parents at '
                   'backslashes too, the kernel does not). getRelativePath: from and to of the same kind and no leading \'..\' left in '
